@@ -29,7 +29,7 @@ def cfg(tier):
 
 def params(tier):
     D, L = cfg(tier)
-    ps = [P("n", 0, 2), P("nested", 0, 1), P("act", 0, 6), P("via", 0, 1), P("cleanup", 0, 1), P("k0", 0, 1), P("k1", 0, 1), P("k2", 0, 1), P("act2", 0, 1)]
+    ps = [P("n", 0, 2), P("nested", 0, 1), P("act", 0, 6), P("via", 0, 2), P("cleanup", 0, 1), P("k0", 0, 2), P("k1", 0, 2), P("k2", 0, 2), P("act2", 0, 1)]
     for j in range(D):
         ps += [P(f"gap{j}", 0, L), P(f"arm{j}", 0, 3)]
     return ps
@@ -40,8 +40,11 @@ def fn(a, tier):
     D, L = cfg(tier)
     n = 1 + pick(a["n"], 3)
     nested = pick(a["nested"], 2)
-    via = pick(a["via"], 2)  # 0: module-level shortcuts in the owning context; 1: the same calls made inside a component's start()
-    kinds = [pick(a[f"k{i}"], 2) for i in range(n)]  # 0 resource with teardown callback, 1 service task
+    # 0: module-level shortcuts in the owning context; 1: the same calls made inside a component's start();
+    # 2: the owner's METHODS called while another, short-lived nested context is current
+    via = pick(a["via"], 3)
+    # 0 resource with teardown callback, 1 service task, 2 resource whose teardown callback starts a service task DURING teardown
+    kinds = [pick(a[f"k{i}"], 3) for i in range(n)]
     first_task = next((i for i, k in enumerate(kinds) if k == 1), None)
     act = pick(a["act"], 7) if first_task is not None else 0
     cleanup = 2 * pick(a["cleanup"], 2) if first_task is not None else 0
@@ -124,10 +127,36 @@ def fn(a, tier):
         async with Context() as ctx:
             info["ctx"] = ctx
 
+            def late_starter(i):
+                async def cb():
+                    log.append(("res_td", i))
+
+                    async def late_task():
+                        try:
+                            await anyio.sleep_forever()
+                        finally:
+                            log.append(("late_task_end", i))
+
+                    await start_service_task(late_task, f"late{i}")  # its finalizer is registered during teardown: it runs next
+
+                return cb
+
             async def register_items():
                 for i in range(n):
-                    if kinds[i] == 0:
+                    if via == 2:
+                        async with Context():  # the owner is NOT the current context while its methods are called
+                            if kinds[i] == 0:
+                                ctx.add_resource(object(), f"r{i}", [RT[i]], teardown_callback=lambda i=i: log.append(("res_td", i)))
+                            elif kinds[i] == 2:
+                                ctx.add_resource(object(), f"r{i}", [RT[i]], teardown_callback=late_starter(i))
+                            else:
+                                task, td = make_task(i)
+                                await ctx.start_service_task(task, f"svc{i}", teardown_action=td)
+                        log.append(("nested_left", i))
+                    elif kinds[i] == 0:
                         add_resource(object(), f"r{i}", [RT[i]], teardown_callback=lambda i=i: log.append(("res_td", i)))
+                    elif kinds[i] == 2:
+                        add_resource(object(), f"r{i}", [RT[i]], teardown_callback=late_starter(i))
                     else:
                         task, td = make_task(i)
                         await start_service_task(task, f"svc{i}", teardown_action=td)
@@ -155,23 +184,34 @@ def fn(a, tier):
             await block()
 
     _, exc, k = run(main, chooser=tape)
-    summary = {"items": ["resource+teardown cb" if kd == 0 else f"service task, teardown_action={ACTIONS[action_for(i)]}" for i, kd in enumerate(kinds)],
+    summary = {"items": ["resource+teardown cb" if kd == 0 else "resource whose teardown cb starts a service task" if kd == 2
+                         else f"service task, teardown_action={ACTIONS[action_for(i)]}" for i, kd in enumerate(kinds)],
                "cleanup_checkpoints_after_stop": cleanup, "context": "nested" if nested else "root",
-               "registered": "inside a component's start()" if via else "directly in the owning context", "schedule": tape.taken}
+               "registered": ["directly in the owning context (shortcuts)", "inside a component's start()", "through the owner's methods while a nested context is current"][via], "schedule": tape.taken}
     if exc is not None:
         return FAIL(f"raised:{type(flatten(exc)[0]).__name__}:action={ACTIONS[act]}", f"{exc!r} log={log}", summary)
     pos = {e: i for i, e in enumerate(log)}
     if ("left",) not in pos:
         return FAIL("did-not-leave", log, summary)
     for i in range(n):
+        if kinds[i] == 2:
+            # the task started during teardown is stopped (its finalizer runs next) before older callbacks proceed
+            lt = pos.get(("late_task_end", i))
+            if lt is None or lt > pos[("left",)]:
+                return FAIL("task-started-during-teardown-not-stopped-before-the-block-was-left", log, summary)
+            for j in range(i):
+                if kinds[j] in (0, 2) and ("res_td", j) in pos and pos[("res_td", j)] < lt:
+                    return FAIL("task-started-during-teardown-outlived-an-earlier-resource", log, summary)
         if kinds[i] != 1:
             continue
         action = action_for(i)
         end, closed = pos.get(("task_end", i)), pos.get(("task_ctx_closed", i))
+        if action != 1 and end is not None and end < pos[("leaving",)]:
+            return FAIL(f"task-stopped-before-its-owner-was-left:action={ACTIONS[action]}:via={via}", log, summary)
         if end is None or closed is None or end > pos[("left",)] or closed > pos[("left",)]:
             return FAIL(f"task-or-its-context-not-finished-when-block-left:action={ACTIONS[action]}", log, summary)
         for j in range(n):
-            if kinds[j] == 0 and ("res_td", j) in pos:
+            if kinds[j] in (0, 2) and ("res_td", j) in pos:
                 if j < i and not (pos[("res_td", j)] > end and pos[("res_td", j)] > closed):
                     return FAIL(f"earlier-resource-torn-down-before-task-finished:action={ACTIONS[action]}:cleanup={cleanup}", log, summary)
                 if j > i and not pos[("res_td", j)] < min(end, closed):
@@ -189,14 +229,14 @@ def fn(a, tier):
             return FAIL(f"task-cancelled={saw_cancel}-expected={want_cancel}:action={ACTIONS[action]}", log, summary)
         snap = info[("snapshot", i)]
         for j in range(n):
-            if kinds[j] == 0:
+            if kinds[j] in (0, 2):
                 has = f"r{j}" in snap[RT[j]]
                 if has != (j < i):
                     return FAIL("task-context-snapshot-wrong", f"task {i} sees r{j}: {has}", summary)
         if info[("parent", i)] is not info["ctx"]:
             return FAIL("task-context-parent-wrong", "", summary)
     res_order = [e[1] for e in log if e[0] == "res_td"]
-    if res_order != sorted(res_order, reverse=True) or len(res_order) != kinds.count(0):
+    if res_order != sorted(res_order, reverse=True) or len(res_order) != kinds.count(0) + kinds.count(2):
         return FAIL("resource-teardown-order", log, summary)
     if info["alive_after"] or k.live_tasks():
         return FAIL("service-task-alive-after-block", info["alive_after"], summary)
@@ -210,9 +250,9 @@ H = Harness(
     params=params,
     cube=lambda tier: 4,
     title="service tasks and resources with teardown callbacks registered in any order; every teardown_action kind",
-    bound_text=lambda tier: "1-3 items, each a resource with a teardown callback or a service task; first task's teardown_action in {"
+    bound_text=lambda tier: "1-3 items, each a resource with a teardown callback, a service task, or a resource whose teardown callback starts a service task during teardown; first task's teardown_action in {"
     + "; ".join(ACTIONS) + "}, later tasks {'cancel', sync callable}; task needs 0 or 2 (shielded) checkpoints of clean-up and has an async teardown "
-    "callback in its own context; root / nested owner; items registered directly or from inside a component's start() (ComponentContext wrappers); FIFO schedule with "
+    "callback in its own context; root / nested owner; items registered by the shortcuts, from inside a component's start() (ComponentContext wrappers) or through the owner's methods while another context is current; FIFO schedule with "
     + ("one deviation within the first 8 decisions" if tier == "quick" else "two deviations"),
     oracle="task end AND its own context's teardown precede every callback registered before the task and follow those registered after; "
     "callable invoked exactly once; task sees a cancellation iff action is 'cancel' or the callable raised; task context = snapshot at start, "
